@@ -93,7 +93,26 @@ fn ident(s: &Sx) -> ast::Ident<'static> {
     let js = leak(format!(
         "{{\"offset\":{off},\"line\":{line},\"fragment\":\"{name}\",\"extra\":null}}"
     ));
-    serde_json::from_str(js).expect("ident json")
+    let id: ast::Ident<'static> = serde_json::from_str(js).expect("ident json");
+    // an identifier away from (1,0) exists only through the codec: the text just decoded must
+    // give back the location and fragment it states (C20, checked in `codec` mode)
+    if id.location_line() != line || id.location_offset() != off || id.fragment() != name {
+        IDENT_DECODE.with(|c| {
+            c.borrow_mut().get_or_insert_with(|| {
+                format!(
+                    "identifier text {js} decodes to fragment {:?} line {} offset {}",
+                    id.fragment(),
+                    id.location_line(),
+                    id.location_offset()
+                )
+            });
+        });
+    }
+    id
+}
+
+thread_local! {
+    static IDENT_DECODE: RefCell<Option<String>> = const { RefCell::new(None) };
 }
 
 fn prim_ty(a: &str) -> ast::PrimitiveTypes {
@@ -1050,6 +1069,7 @@ fn work(mode: &str, input: &str, output: &str) {
         if line.trim().is_empty() {
             continue;
         }
+        IDENT_DECODE.with(|c| *c.borrow_mut() = None);
         let built = std::panic::catch_unwind(|| program(&sx::parse(&line)));
         let Ok(prog) = built else {
             eprintln!("harness: malformed input at line {}", lineno + 1);
@@ -1059,6 +1079,10 @@ fn work(mode: &str, input: &str, output: &str) {
             "run" => analyse(&prog).unwrap_or_else(|| "(panic)".to_string()),
             "codec" => {
                 let r = std::panic::catch_unwind(std::panic::AssertUnwindSafe(|| codec_check(&prog)));
+                let r = match IDENT_DECODE.with(|c| c.borrow().clone()) {
+                    Some(e) => Ok(Err(e)),
+                    None => r,
+                };
                 match r {
                     Ok(Ok(())) => "(codec ok)".to_string(),
                     Ok(Err(e)) => format!("(codec fail {})", quote(&e)),
